@@ -178,45 +178,51 @@ def minList (xs : List R) : R := match xs with | [] => Num.zero | x :: r => r.fo
 inductive BfBranch | noMask | smallRange | onePass | twoPass
 deriving Repr, BEq, DecidableEq
 
-/--
+/-- The grid-level body of `unwrap_bf_overlap_phase_torch`, after the scatter and before the
+gather (`g0` = `phase_grid`, `m` = `mask_grid`):
 ```
-phase_grid = zeros; mask_grid = zeros(bool)
-phase_grid[bf_mask] = phase_bf;  mask_grid[bf_mask] = mask_bf
 if mask_grid.any():
     if phase_grid.max() - phase_grid.min() > pi:
         phase_grid = unwrap(phase_grid * mask_grid, mask=mask_grid) * mask_grid
         if two_pass: phase_grid = unwrap(phase_grid, mask=mask_grid) * mask_grid
-return phase_grid[bf_mask]
 ```
 `order1`, `order2` are the merge orders of the two passes (inputs, see above). -/
-def unwrapBfOverlap (half : R) (H W : Nat) (bfMask : Nat → Bool) (maskBf : List Bool)
-    (phaseBf : List R) (twoPass : Bool) (order1 order2 : List (Nat × Nat)) :
-    Option (BfBranch × List R) :=
+def bfUnwrapGrid (half : R) (H W : Nat) (g0 : Nat → R) (m : Nat → Bool) (twoPass : Bool)
+    (order1 order2 : List (Nat × Nat)) : Option (BfBranch × (Nat → R)) :=
   let N := H * W
-  let pos := bfPositions N bfMask
-  let grid0 := scatter N pos phaseBf Num.zero
-  let m : Nat → Bool := bfMaskGrid N bfMask maskBf
-  let g0 : Nat → R := fun i => grid0.getD i Num.zero
-  let gather (g : Nat → R) : List R := pos.map g
-  if !(List.range N).any m then some (.noMask, gather g0)
+  if !(List.range N).any m then some (.noMask, g0)
   else
     let vals := (List.range N).map g0
-    if !(Num.ltb half (maxList vals - minList vals)) then some (.smallRange, gather g0)
+    if !(Num.ltb half (maxList vals - minList vals)) then some (.smallRange, g0)
     else
       -- phase_grid * mask_grid
       let in1 : Nat → R := fun i => if m i then g0 i else Num.zero
       match unwrapPhase2d half H W in1 order1 with
       | none => none
       | some o1 =>
-        let a1 := o1.toArray
-        let g1 : Nat → R := fun i => if m i then a1.getD i Num.zero else Num.zero
-        if !twoPass then some (.onePass, gather g1)
+        let g1 : Nat → R := fun i => if m i then o1.getD i Num.zero else Num.zero
+        if !twoPass then some (.onePass, g1)
         else
           match unwrapPhase2d half H W g1 order2 with
           | none => none
-          | some o2 =>
-            let a2 := o2.toArray
-            let g2 : Nat → R := fun i => if m i then a2.getD i Num.zero else Num.zero
-            some (.twoPass, gather g2)
+          | some o2 => some (.twoPass, fun i => if m i then o2.getD i Num.zero else Num.zero)
+
+/--
+```
+phase_grid = zeros; mask_grid = zeros(bool)
+phase_grid[bf_mask] = phase_bf;  mask_grid[bf_mask] = mask_bf
+… bfUnwrapGrid …
+return phase_grid[bf_mask]
+``` -/
+def unwrapBfOverlap (half : R) (H W : Nat) (bfMask : Nat → Bool) (maskBf : List Bool)
+    (phaseBf : List R) (twoPass : Bool) (order1 order2 : List (Nat × Nat)) :
+    Option (BfBranch × List R) :=
+  let N := H * W
+  let pos := bfPositions N bfMask
+  let grid0 := scatter N pos phaseBf Num.zero
+  match bfUnwrapGrid half H W (fun i => grid0.getD i Num.zero) (bfMaskGrid N bfMask maskBf)
+      twoPass order1 order2 with
+  | none => none
+  | some (br, g) => some (br, pos.map g)
 
 end QuantemModel.Unwrap
